@@ -327,7 +327,8 @@ impl SparseSet {
 
     /// Get the maximum value in the universe
     pub fn max_universe_value(&self) -> i32 {
-        self.off + self.n as i32 - 1
+        // `off + n` itself can exceed i32::MAX by one when the universe ends at i32::MAX
+        self.off + (self.n as i32 - 1)
     }
 
     // ===== COMPLEMENT API (for incremental sum and other optimizations) =====
